@@ -344,13 +344,38 @@ int main(int argc, char **argv) {
                     a.apply(f, x);
                 }
                 if (ptr != m.ptr || col != m.col || std::memcmp(val.data(), m.val.data(), val.size() * 8) != 0) { o << "USER-MATRIX-MODIFIED"; return; }
+                // the by-reference entry points copy the view into a matrix of their own: that copy must own (and free) its
+                // arrays and must leave the user's alone.  Sequence on one view: copy-construct, assign, amg(*view), rebuild(*view),
+                // make_solver(*view) + solve; ledger: nothing allocated in here is still live afterwards.
+                {
+                    typedef amg<B, runtime::coarsening::wrapper, runtime::relaxation::wrapper> AMG;
+                    typedef make_solver<AMG, runtime::solver::wrapper<B>> SLV;
+                    auto A = adapter::zero_copy((size_t)m.n, ptr.data(), col.data(), val.data());
+                    std::vector<double> fv(m.n, 1.0), xv(m.n, 0.0);
+                    backend::numa_vector<double> f(m.n), x(m.n); for (int i = 0; i < m.n; ++i) f[i] = 1;
+                    long long before = hf::live_blocks();
+                    {
+                        backend::crs<double, ptrdiff_t, ptrdiff_t> X(*A), Y; Y = *A;
+                        if ((const void*)X.val == (const void*)val.data() || (const void*)Y.val == (const void*)val.data()) { o << "USER copy of a zero_copy view aliases the user's arrays"; return; }
+                        boost::property_tree::ptree p; p.put("coarse_enough", 1); p.put("allow_rebuild", true);
+                        AMG a(*A, p);
+                        a.apply(f, x);
+                        a.rebuild(*A);
+                        a.apply(f, x);
+                        boost::property_tree::ptree ps; ps.put("precond.coarse_enough", 1); ps.put("solver.maxiter", 3);
+                        try { SLV s(*A, ps); s(fv, xv); } catch (const std::exception &) {}
+                    }
+                    long long leaked = hf::live_blocks() - before;
+                    if (leaked != 0) { o << "LEAK zero_copy view passed by reference (copy, assign, amg, rebuild, make_solver): " << leaked << " block(s) still live after destruction"; return; }
+                }
+                if (ptr != m.ptr || col != m.col || std::memcmp(val.data(), m.val.data(), val.size() * 8) != 0) { o << "USER-MATRIX-MODIFIED"; return; }
                 o << "OK normal";
             }, 60.0);
             std::string t = r.text; if (t == "COPIED") t = "USER zero_copy copied the arrays";
             judge(cs, r, t);
             vf::nontrivial(vf::hstr(key));
         }
-        vf::space("zero_copy adapter + amg over every matrix: pointer identity, arrays unchanged, no double free");
+        vf::space("zero_copy adapter over every matrix: shared_ptr path (pointer identity, arrays unchanged, no double free) and by-reference path (copy, assign, amg, rebuild, make_solver: private copies own and free their arrays, ledger empty)");
     }
     return vf::finish();
 }
